@@ -46,11 +46,14 @@ pub struct PoolOutcome {
     pub aux_counts: Vec<usize>,
 }
 
-/// In-run frame-liveness audit (C06 clause 6): once the countdown of a
-/// broadcast has reached zero the caller may resume and its stack frame may
-/// die, so a worker must not touch the broadcast's shared state any more
-/// until it has received its next task. Evaluated *before* the operation is
-/// executed, so a use-after-free is reported instead of performed.
+/// In-run audit of C06's clauses 3 and 6, evaluated *before* the offending
+/// operation is executed so that a use-after-free in the code under test is
+/// reported instead of performed:
+///
+/// * when `broadcast` returns, every task call must have returned or panicked;
+/// * once the countdown of a broadcast has reached zero, or the caller is back
+///   from `broadcast`, a worker that served it must not operate on the
+///   broadcast's shared state any more (until it has received its next task).
 #[derive(Default)]
 pub struct FrameLiveness {
     st: Mutex<FrameSt>,
@@ -58,40 +61,76 @@ pub struct FrameLiveness {
 
 #[derive(Default)]
 struct FrameSt {
-    zero: Option<(u32, usize)>,
-    closed: [bool; dsim::MAX_THREADS],
     bcast: u32,
+    n: u32,
+    ended: u32,
+    returned: bool,
+    zero: Option<u32>,
+    /// Address of the first atomic the broadcast's participants operated on
+    /// (its countdown): the shared state lives around it.
+    shared_addr: Option<usize>,
+    /// Workers that took a task of the current broadcast and have not yet
+    /// come back for the next one.
+    serving: [bool; dsim::MAX_THREADS],
 }
 
 impl dsim::Monitor for FrameLiveness {
-    fn on_event(&self, e: &Event) {
+    fn on_event(&self, e: &Event) -> Option<String> {
         let mut st = self.st.lock().unwrap();
+        let t = e.tid as usize;
         match e.kind {
-            Ev::User(UserEv::BroadcastBegin { j, .. }) => {
-                st.zero = None;
-                st.closed = [false; dsim::MAX_THREADS];
+            Ev::User(UserEv::BroadcastBegin { j, n }) => {
                 st.bcast = j;
+                st.n = n;
+                st.ended = 0;
+                st.returned = false;
+                st.zero = None;
+                st.shared_addr = None;
             }
-            Ev::Atomic { op: AtomOp::Rmw, new: 0, addr, .. } if e.tid != 0 => {
-                st.zero = Some((e.seq, addr));
-                st.closed = [false; dsim::MAX_THREADS];
+            Ev::User(UserEv::TaskBegin { .. }) if t != 0 => st.serving[t] = true,
+            Ev::User(UserEv::TaskEnd { .. } | UserEv::TaskPanic { .. }) => st.ended += 1,
+            Ev::Recv { .. } | Ev::RecvErr { .. } | Ev::Exit => st.serving[t] = false,
+            Ev::Atomic { op, new, addr, .. } if !st.returned => {
+                if st.shared_addr.is_none() {
+                    st.shared_addr = Some(addr);
+                }
+                if op == AtomOp::Rmw && new == 0 && t != 0 {
+                    st.zero = Some(e.seq);
+                }
             }
-            Ev::Recv { .. } | Ev::RecvErr { .. } | Ev::Exit => {
-                st.closed[e.tid as usize] = true;
+            Ev::User(UserEv::BroadcastReturn { j }) => {
+                st.returned = true;
+                // Nothing else has run since the caller came back.
+                if st.ended < st.n + 1 {
+                    return Some(format!(
+                        "[returned_early] broadcast {j} (n={}) returned although {} of its {} task calls had neither returned nor panicked",
+                        st.n,
+                        st.n + 1 - st.ended,
+                        st.n + 1
+                    ));
+                }
             }
             _ => {}
         }
+        None
     }
 
     fn pre_touch(&self, tid: usize, addr: usize) -> Option<String> {
         let st = self.st.lock().unwrap();
-        let (zseq, zaddr) = st.zero?;
-        if tid == 0 || st.closed[tid] || addr.abs_diff(zaddr) > 256 {
+        if tid == 0 || !st.serving[tid] || !(st.returned || st.zero.is_some()) {
+            return None;
+        }
+        let shared = st.shared_addr?;
+        if addr.abs_diff(shared) > 256 {
             return None;
         }
         Some(format!(
-            "[touch_after_release] broadcast {}: worker thread {tid} is about to operate on the broadcast's shared state although its countdown reached zero at seq {zseq} (the caller may have resumed and its frame may be gone)",
-            st.bcast
+            "[touch_after_release] broadcast {}: worker thread {tid} is about to operate on the broadcast's shared state although {} (the caller's frame may be gone)",
+            st.bcast,
+            match st.zero {
+                Some(z) if !st.returned => format!("its countdown reached zero at seq {z}"),
+                _ => "the caller is already back from broadcast".to_string(),
+            }
         ))
     }
 }
